@@ -37,7 +37,7 @@ Produce TWO different, independent changes (A and B) to the library source under
    `cd {wt} && /venv/bin/python -m pytest -q -p no:cacheprovider`
    — the baseline on the untouched worktree is `160 passed, 3 failed` where the 3 failures are `tests/test_dotexport.py::{{test_tree1,test_tree2,test_tree_png}}` (graphviz is not installed; they always fail). With your change the result must be exactly the same 160 passed / same 3 failed. Do not edit anything under `tests/`. Also run it once with `ANYTREE_ASSERTIONS=1` in the environment: still the same result.
 3. **needs something specific to manifest** — a multi-step sequence of operations, an unusual-but-legal input, a particular combination of options, a fault (a user hook raising) at a particular point, or two cooperating sites that each look fine alone. NOT something that ordinary use exposes at once. Think of a plausible refactoring slip, "optimisation", off-by-one, wrong truthiness test, caching, reordering of two statements, copy-paste between the two mixins, etc. — the kind of change a maintainer could really make and that code review plus the existing tests would let through. No sabotage that is obviously malicious (no `if name == "magic"`), no randomness, no time dependence.
-4. comes with a **demonstration**: a small standalone Python program `demoA.py` / `demoB.py` that imports anytree from the directory given in the environment variable `ANYTREE_ROOT` (do `import os, sys; sys.path.insert(0, os.environ["ANYTREE_ROOT"])` before importing anytree), prints what it observes, and exits with status 1 if the property is violated and 0 if it holds. It must exit 1 on your changed worktree and 0 on the untouched code (check the latter with `git stash` / `git stash pop`, or `git diff > p.diff; git checkout -- anytree; ...; git apply p.diff`).
+4. comes with a **demonstration**: a small standalone Python program `demoA.py` / `demoB.py` that imports anytree from the directory given in the environment variable `ANYTREE_ROOT` (do `import os, sys; sys.path.insert(0, os.environ["ANYTREE_ROOT"])` before importing anytree), prints what it observes, and exits with status 1 if the property is violated and 0 if it holds. It must exit 1 on your changed worktree and 0 on the untouched code (check the latter with `git diff > /tmp/seedout/<yours>/p.diff; git checkout -- anytree; ...; git apply p.diff` — do NOT use `git stash`: the stash is shared by all worktrees of this repository and other people work in sibling worktrees).
 {extra}
 ## Deliverables (in `{out}/`)
 
